@@ -40,7 +40,7 @@ WITNESSES = {
     "block-local-array": (
         HEAD + "  subroutine test()\n    integer :: i\n    block\n      integer :: tmp(3)\n      tmp(1) = f(2)\n"
                "      i = tmp(1)\n    end block\n  end subroutine test\nend module m\n",
-        ("m", "test"), {"m.f"}),
+        ("m", "test"), {"@m.f"}),
     "same-last-component": (
         "module m\n  implicit none\n  type t1\n  contains\n    procedure :: run => run1\n  end type\n"
         "  type t2\n  contains\n    procedure :: run => run2\n  end type\ncontains\n"
@@ -48,15 +48,15 @@ WITNESSES = {
         "  subroutine run2(self)\n    class(t2) :: self\n  end subroutine\n"
         "  subroutine test()\n    type(t1) :: a\n    type(t2) :: b\n    call a%run()\n    call b%run()\n"
         "  end subroutine test\nend module m\n",
-        ("m", "test"), {"m.t1.run", "m.t2.run"}),
+        ("m", "test"), {"@m.t1.run", "@m.t2.run"}),
     "intrinsic-named-procedure": (
         "module m\n  implicit none\ncontains\n  subroutine wait(n)\n    integer :: n\n  end subroutine wait\n"
         "  integer function system(n)\n    integer :: n\n    system = n\n  end function system\n"
         "  subroutine test()\n    integer :: i\n    call wait(3)\n    i = system(2)\n  end subroutine test\nend module m\n",
-        ("m", "test"), {"m.wait", "m.system"}),
+        ("m", "test"), {"@m.wait", "@m.system"}),
     "labelled-call-without-arguments": (
         HEAD + "  subroutine test()\n    integer :: i\n    i = 1\n10  call sub0\n  end subroutine test\nend module m\n",
-        ("m", "test"), {"m.sub0"}),
+        ("m", "test"), {"@m.sub0"}),
     "format-without-blank": (
         HEAD + "  subroutine test()\n    integer :: i\n    i = 1\n    write (6, 100) i\n"
                "100 format(i5, 3(f8.2, a))\n  end subroutine test\nend module m\n",
@@ -69,18 +69,18 @@ WITNESSES = {
         "module m\n  implicit none\ncontains\n  integer function helper(n)\n    integer :: n\n    helper = n\n"
         "  end function helper\n  subroutine first()\n    integer :: helper(3)\n    helper(1) = 2\n  end subroutine first\n"
         "  subroutine second()\n    integer :: i\n    i = helper(2)\n  end subroutine second\nend module m\n",
-        ("m", "second"), {"m.helper"}),
+        ("m", "second"), {"@m.helper"}),
     "associate-function-selector-crash": (
         "module m\n  implicit none\n  type t\n    integer :: c(3)\n  contains\n    procedure :: run\n  end type\ncontains\n"
         "  integer function test()\n    associate (a => mk(1))\n      call a%run()\n    end associate\n    test = 1\n"
         "  end function test\n  subroutine run(self)\n    class(t) :: self\n  end subroutine run\n"
         "  type(t) function mk(x)\n    integer :: x\n    mk%c = x\n  end function mk\nend module m\n",
-        ("m", "test"), {"m.mk", "m.t.run"}),
+        ("m", "test"), {"@m.mk", "@m.t.run"}),
     "goto-pattern-unanchored": (
         HEAD + "  subroutine mygoto(a, b)\n    integer :: a, b\n  end subroutine mygoto\n"
                "  subroutine test()\n    integer :: i\n    call mygoto(1, 2)\n    go to (10, 20), f(i)\n10  continue\n20  continue\n"
                "  end subroutine test\nend module m\n",
-        ("m", "test"), {"m.mygoto", "m.f"}),
+        ("m", "test"), {"@m.mygoto", "@m.f"}),
     "typed-external-function": (
         "subroutine test()\n  implicit none\n  integer :: ef, i\n  i = ef(3)\nend subroutine test\n"
         "integer function ef(n)\n  integer :: n\n  ef = n\nend function ef\n",
@@ -88,12 +88,17 @@ WITNESSES = {
 }
 
 
+# repaired in FORD: a witness that fails again is a regression (harness: failing-input VIOLATION)
+FIXED = {"same-last-component", "labelled-call-without-arguments", "format-without-blank", "associate-expression-selector",
+         "sibling-variable-hides-procedure", "associate-function-selector-crash", "goto-pattern-unanchored"}
+
+
 def obj_path(o):
     names = []
     while o is not None and getattr(o, "obj", None) != "sourcefile":
         names.append(str(getattr(o, "name", "?")).lower())
         o = getattr(o, "parent", None)
-    return ".".join(reversed(names))
+    return "@" + ".".join(reversed(names))
 
 
 def unit_calls(source, path):
